@@ -89,6 +89,8 @@ func checkC01(c *Ctx) {
 	r014(c)
 	r015(c)
 	r016n(c, "R01.6 rotation-subset-of-healthy")
+	r017(c, "R01.7 failure-is-reported")
+	r171b(c)
 }
 
 // R01.1 health gate dominates publication.
@@ -806,3 +808,67 @@ func appendedElems(app *ssa.Call) []ssa.Value {
 }
 
 var _ = strings.Contains
+
+// R01.7: the commands built on the deploy routine report its failure unchanged.
+func r017(c *Ctx, rule string) {
+	c.floor(rule, 4)
+	dep := c.method("Router", "deployTargetsIntoService")
+	for _, name := range []string{"DeployService", "SetRolloutTargets"} {
+		fn := c.method("Router", name)
+		cs := callsTo(fn, dep)
+		if len(cs) != 1 {
+			c.undecided(rule, "Router."+name+"/shape", fn.Pos(), "expected one deployTargetsIntoService call")
+			continue
+		}
+		call, ok := cs[0].instr.(*ssa.Call)
+		if !ok {
+			c.ob(rule, "Router."+name+"/deploy-is-synchronous", cs[0].pos(), false, true, "")
+			continue
+		}
+		okErr := false
+		for _, ret := range normalReturns(fn) {
+			if _, failed := nilKnowledge(ret, sameAs(call)); failed {
+				okErr = lastRet(ret) == ssa.Value(call)
+				if !okErr {
+					break
+				}
+			}
+		}
+		c.ob(rule, "Router."+name+"/returns-the-deploy-error", fn.Pos(), okErr, true, "when the deploy routine fails (unhealthy targets, host conflict) the command must return that error")
+		// success only when the deploy routine succeeded
+		okNil := true
+		for _, ret := range normalReturns(fn) {
+			if isNilConst(lastRet(ret)) {
+				if isNil, _ := nilKnowledge(ret, sameAs(call)); !isNil {
+					okNil = false
+				}
+			}
+		}
+		c.ob(rule, "Router."+name+"/success-only-after-successful-deploy", fn.Pos(), okNil, true, "")
+		// no deferred closure rewrites the result
+		rewrites := false
+		for _, cl := range fn.AnonFuncs {
+			for _, b := range cl.Blocks {
+				for _, in := range b.Instrs {
+					if st, ok := in.(*ssa.Store); ok {
+						if a := cellOfAddr(st.Addr); a != nil && a.Parent() == fn && isErrorType(a.Type().Underlying().(*types.Pointer).Elem()) {
+							rewrites = true
+						}
+					}
+				}
+			}
+		}
+		c.ob(rule, "Router."+name+"/result-not-rewritten-by-closures", fn.Pos(), !rewrites, true, "a deferred closure assigning the named error result can replace the deploy failure with nil")
+	}
+	// the RPC handlers return the router's result (shared with C20)
+	for _, pair := range [][2]string{{"Deploy", "DeployService"}, {"RolloutDeploy", "SetRolloutTargets"}} {
+		h := c.method("CommandHandler", pair[0])
+		ok := false
+		for _, ret := range normalReturns(h) {
+			if call, isC := lastRet(ret).(*ssa.Call); isC && isCallTo(call.Common(), c.method("Router", pair[1])) {
+				ok = true
+			}
+		}
+		c.ob(rule, "CommandHandler."+pair[0]+"/returns-router-error", h.Pos(), ok, true, "")
+	}
+}
